@@ -272,7 +272,9 @@ var c01Prefix = &vlib.Check{
 	Oracle: vlib.IsoOracle, Inner: c01Inner, Classify: c01Classify,
 }
 
-func init() { vlib.Register(c01Mut, c01Soup, c01Macro, c01Include, c01Roots, c01Prefix, c01LongLines, c01Families) }
+func init() {
+	vlib.Register(c01Mut, c01Soup, c01Macro, c01Include, c01Roots, c01Prefix, c01LongLines, c01Families)
+}
 
 func TestC01(t *testing.T) {
 	ev := vlib.Ev("C01")
